@@ -69,7 +69,7 @@ fn text_class(text: &str) -> String {
 pub enum Op { Next(u8), Take(u8), Find(u8, u8) }
 const TAGS: [&str; 8] = ["20", "21", "50A", "50C", "50K", "50L", "59", "59A"];
 const BASES: [&str; 4] = ["50", "59", "20", "21"];
-const VARIANTS: [Option<&[&str]>; 4] = [None, Some(&["C", "L"]), Some(&["A", "F", "K"]), Some(&["A"])];
+const VARIANTS: [Option<&[&str]>; 5] = [None, Some(&["C", "L"]), Some(&["A", "F", "K"]), Some(&["A"]), Some(&["A", "C", "F", "K", "L"])];
 
 fn op_name(o: &Op) -> String { match o { Op::Next(t) => format!("get_next_available({})", TAGS[*t as usize]), Op::Take(t) => format!("get_next_available+mark_consumed({})", TAGS[*t as usize]), Op::Find(b, v) => format!("find_constrained({}, {:?})", BASES[*b as usize], VARIANTS[*v as usize]) } }
 
@@ -106,7 +106,7 @@ impl Model for TM {
         if s.absorbing || s.depth >= self.max_depth { return; }
         for t in 0..8u8 { a.push(Op::Take(t)); }
         for t in 0..8u8 { a.push(Op::Next(t)); }
-        for b in 0..4u8 { for v in 0..4u8 { a.push(Op::Find(b, v)); } }
+        for b in 0..4u8 { for v in 0..5u8 { a.push(Op::Find(b, v)); } }
     }
     fn next_state(&self, s: &St, op: Op) -> Option<St> {
         self.transitions.fetch_add(1, Ordering::Relaxed);
